@@ -442,6 +442,7 @@ type AtCall struct {
 	Callee   string
 	N        int
 	Requires []Clause
+	Assumes  []Clause // resource assumption at this call site (never checked; reported in the evidence)
 	Hints    []Hint
 	GhostPre []GhostUpd
 	GhostPost []GhostUpd
@@ -462,6 +463,7 @@ type FuncSpec struct {
 	Requires []Clause
 	Ensures  []Clause
 	Modifies []Expr
+	Captures []Clause // closures: facts about the captured variables, proved where the closure is created, assumed at its entry
 	Interference []Expr // locations other goroutines may change while this one blocks on a channel operation
 	Panics   *Clause
 	NoPanic  bool
@@ -641,7 +643,7 @@ func parseExprList(s string) ([]Expr, error) {
 }
 
 var clauseKeywords = map[string]bool{"requires": true, "ensures": true, "modifies": true, "panics": true, "pure": true,
-	"decreases": true, "hint": true, "loop": true, "at": true, "params": true, "nopanic": true, "maypanic": true, "allocates": true, "ghost": true, "interference": true}
+	"decreases": true, "hint": true, "loop": true, "at": true, "params": true, "nopanic": true, "maypanic": true, "allocates": true, "ghost": true, "interference": true, "captures": true}
 var itemKeywords = map[string]bool{"const": true, "spec": true, "lemma": true, "inv": true, "chaninv": true, "invexports": true, "ghost": true, "iface": true,
 	"funcfield": true, "func": true, "viewfunc": true, "trusted": true, "package": true, "opaque": true}
 
@@ -800,10 +802,13 @@ func ParseContractFile(path string, pkgPath string) (*ContractFile, error) {
 		case "chaninv":
 			// chaninv Struct.field(v): expr -- every value sent on the channel held in that field satisfies expr
 			// (obligation at each send), so every value received from it does (assumed at each receive)
-			k := strings.Index(rest, ":")
-			i := strings.Index(rest, "(")
-			j := strings.Index(rest, ")")
-			if k < 0 || i < 0 || j < i || k < j {
+			j := strings.Index(rest, "):")
+			k := j + 1
+			i := -1
+			if j >= 0 {
+				i = strings.LastIndex(rest[:j], "(")
+			}
+			if j < 0 || i < 0 {
 				return nil, fail(l, fmt.Errorf("chaninv Struct.field(v): expr"))
 			}
 			b, err := ParseExpr(rest[k+1:])
@@ -936,6 +941,16 @@ func ParseContractFile(path string, pkgPath string) (*ContractFile, error) {
 				return nil, fail(l, err)
 			}
 			cur.Modifies = append(cur.Modifies, es...)
+		case "captures":
+			r2 := strings.TrimSpace(rest)
+			if !strings.HasPrefix(r2, "requires") {
+				return nil, fail(l, fmt.Errorf("captures requires <expr>"))
+			}
+			c, err := parseClause(strings.TrimSpace(strings.TrimPrefix(r2, "requires")))
+			if err != nil {
+				return nil, fail(l, err)
+			}
+			cur.Captures = append(cur.Captures, c)
 		case "interference":
 			es, err := parseExprList(rest)
 			if err != nil {
@@ -1064,6 +1079,12 @@ func ParseContractFile(path string, pkgPath string) (*ContractFile, error) {
 					return nil, fail(l, err)
 				}
 				ac.Requires = append(ac.Requires, c)
+			case "assumes":
+				c, err := parseClause(f[3])
+				if err != nil {
+					return nil, fail(l, err)
+				}
+				ac.Assumes = append(ac.Assumes, c)
 			case "hint":
 				hs, err := parseHints(f[3])
 				if err != nil {
